@@ -833,3 +833,28 @@ Proof.
         reflexivity. }
     rewrite (is_null_unmarked _ Mr) in N. apply (convert_null_inv f v t r E M N).
 Qed.
+
+Lemma dynamic_replace_dyn want have : dynamic_replace (ty_size want) have want = TDyn -> want = TDyn.
+Proof.
+  destruct want; simpl; try discriminate; try reflexivity.
+  - destruct have; discriminate.
+  - destruct have; discriminate.
+  - destruct have; discriminate.
+  - destruct have; try discriminate. destruct (length ts0 =? length ts)%nat; discriminate.
+  - destruct have; discriminate.
+Qed.
+
+Lemma convert_dyn_type : forall f v t r, convert f v t = COk r -> type_of r = TDyn -> t = TDyn.
+Proof.
+  induction f as [|f IH]; intros v t r E T; [discriminate|].
+  apply convert_inv in E.
+  destruct E as [m v want r' E|v want Hm Et|v Hm|t0 rf want P|t0 want P|n|b|s n En|s b Eb
+                 |t0 l w vs P Hd' F|t0 l w vs P Hd' F|l w vs P Hd' F|l ws vs P F
+                 |t0 kvs w vs P Hd' F|kvs w vs P Hd' F|kvs ws vs P F];
+    try reflexivity; try discriminate.
+  - rewrite type_of_with_marks in T. apply (IH v want r' E T).
+  - apply ty_eqb_eq in Et. congruence.
+  - destruct (conv_unknown_rf t0 rf want); [simpl in T|rewrite type_of_finish_unknown in T];
+      apply dynamic_replace_dyn in T; exact T.
+  - simpl in T. apply dynamic_replace_dyn in T. exact T.
+Qed.
